@@ -344,6 +344,10 @@ def check(prog, rep):
     config_path(prog, rep)
     overlay(prog, rep)
     first_run(prog, rep)
+    # nothing on the way is memoised on a key that does not determine the answer
+    from ..rules_own import memo_rule
+
+    memo_rule(prog, rep, rule="MEMO")
 
 
 VARIANTS = [
